@@ -16,9 +16,9 @@ VERIF = os.path.dirname(HERE)
 # property -> (world, level, {tier: (runs, wall_cap_s, per_run_timeout_s)})
 PROPS = {
     "C03": ("backends", "exploration", {"quick": (1600, 75, 60), "thorough": (40000, 1500, 90)}),
-    "C04": ("credstore", "exploration", {"quick": (3000, 75, 60), "thorough": (80000, 1500, 90)}),
+    "C04": ("credstore", "exploration", {"quick": (12000, 75, 60), "thorough": (400000, 1500, 90)}),
     "C06": ("entropy", "exploration", {"quick": (3000, 75, 60), "thorough": (60000, 1200, 90)}),
-    "C08": ("credstore", "exploration", {"quick": (2500, 75, 60), "thorough": (60000, 1500, 120)}),
+    "C08": ("credstore", "exploration", {"quick": (8000, 75, 60), "thorough": (40000, 1800, 180)}),
     "C09": ("derive", "exploration", {"quick": (3000, 75, 60), "thorough": (80000, 1500, 90)}),
     "C10": ("credstore", "fault_enumeration", {"quick": (900, 75, 90), "thorough": (25000, 1800, 180)}),
     "C13": ("totp", "exploration", {"quick": (6000, 60, 60), "thorough": (200000, 1200, 90)}),
